@@ -61,3 +61,10 @@ pub open spec fn test_fails_at<T: Clone + Into<Obj>>(f: Func, s: VSeq<T>, n: int
     all_tested(f, s, n) && n < s.len() && test_outcome(f, s[n], Err::<bool, NErr>(e))
 }
 } // verus!
+verus! {
+// TRUSTED: `window.iter().cloned().collect()` on a VecDeque (vstd specifies neither Iterator::cloned nor collect from it): the elements, cloned, in order
+#[verifier::external_body]
+pub fn vecdeque_cloned<T: Clone>(w: &std::collections::VecDeque<T>) -> (r: Vec<T>)
+    ensures seq_cloned(w@, r@)
+{ w.iter().cloned().collect() }
+} // verus!
